@@ -23,7 +23,7 @@ from .corpus import CORPUS
 
 PROP = "C03"
 GRAMMARS = ["g1", "g2", "g3", "p1", "p2", "p3", "c1", "v1", "o2", "e1x"]
-GRAMMARS = ["g1", "g2", "g3", "p1", "p2", "p3", "c1", "v1", "o2"]
+GRAMMARS = ["g1", "g2", "g3", "g4", "p1", "p2", "p3", "c1", "v1", "o2"]
 
 
 def all_named(level, acc):
@@ -191,12 +191,11 @@ def make_jobs(tier, seed, build):
     nmax = 3 if tier == "quick" else 4
     for gname in GRAMMARS:
         g = CORPUS[gname]
-        for n in range(2, nmax + 1):
-            for shape in tok.all_shapes(n, g.decl):
-                # transposition starts at word k; it needs at least two words left of `--`
-                left = shape.index("dd") if "dd" in shape else len(shape)
-                for k in range(0, left - 1):
-                    jobs.append({"id": "%s:%d:%s" % (gname, k, ",".join(shape)), "grammar": gname, "shape": shape, "k": k})
+        for shape in tok.all_shapes_by_words(nmax, g.decl):
+            # transposition of blocks k, k+1; it needs at least two words left of `--`
+            left = shape.index("dd") if "dd" in shape else len(shape)
+            for k in range(0, left - 1):
+                jobs.append({"id": "%s:%d:%s" % (gname, k, ",".join(shape)), "grammar": gname, "shape": shape, "k": k})
     return jobs
 
 
@@ -235,7 +234,7 @@ def finish(results, jobs, build, out, tier, seed, wall):
         "solver_time_s": st["solver_s"],
         "mir_statements_executed": st["steps"],
         "outcome_classes": fw.merge_counts(results, "classes"),
-        "bounds": {"items": "2..=%d" % nmax, "grammars": GRAMMARS, "transpositions": "every neighbouring pair of occurrence blocks left of `--`"},
+        "bounds": {"argv_words": "2..=%d (up to twice as many items)" % nmax, "grammars": GRAMMARS, "transpositions": "every neighbouring pair of occurrence blocks left of `--`"},
         "jobs": len(jobs),
         "functions_encoded": sorted(fw.merge_counts(results, "fn_hits")),
         "models_used": fw.merge_counts(results, "models_used"),
